@@ -570,3 +570,7 @@ def _sp_exists(interp, p):
 def _sp_unlink(interp, p, *a, **k):
     interp.ctx.__dict__.setdefault("fs_log", []).append(("unlink", p))
     return None
+
+
+OBJ_METHODS[("Hasher", "update")] = models._hasher_update
+OBJ_METHODS[("Hasher", "hexdigest")] = models._hasher_hexdigest
